@@ -89,3 +89,129 @@ def run_file_histories(ctx, found):
                                       % (op, list(calls), sorted(n for n in after if after[n] != before[n])), rep))
         finally:
             shutil.rmtree(d, ignore_errors=True)
+
+
+def directory_sources(ctx, report):
+    """A PathSource on a DIRECTORY: its modified time is the directory's own, which the file system moves whenever an entry is added,
+    removed or renamed.  Over histories of such operations (each followed by a run) the output and the stored value equal a run from
+    scratch.  (Rewriting a file in place does not move the directory's time; that is outside what a directory source can see and is not
+    part of these histories.)  Modified times are set explicitly (os.utime), strictly increasing, one second apart."""
+    import itertools
+    import os
+    import shutil
+    import tempfile
+    uj = core.use_repo()
+    import uberjob.stores as st
+    rng = ctx.rng
+    for trial in range(ctx.n(6, 40)):
+        root = tempfile.mkdtemp(prefix="ujdirsrc_")
+        try:
+            d = os.path.join(root, "inputs")
+            os.mkdir(d)
+            tick = itertools.count(1_600_000_000 + trial * 1000)
+
+            def stamp(p):
+                t = next(tick)
+                os.utime(p, (t, t))
+
+            def put(name, text):
+                with open(os.path.join(d, name), "w") as f:
+                    f.write(text)
+                stamp(os.path.join(d, name))
+                stamp(d)
+            put("a.txt", "a")
+            put("b.txt", "b")
+            pk = rng.choice(["str", "pathlib"])
+            import pathlib
+            src_path = pathlib.Path(d) if pk == "pathlib" else d
+
+            def combine(path):
+                return "+".join(open(os.path.join(path, n)).read() for n in sorted(os.listdir(path)))
+            plan, reg = uj.Plan(), uj.Registry()
+            s_ = reg.source(plan, st.PathSource(src_path))
+            joined = plan.call(combine, s_)
+            out_path = os.path.join(root, "joined.json")
+            reg.add(joined, st.JsonFileStore(out_path))
+            history = []
+            for step in range(rng.randint(2, 5)):
+                names = sorted(os.listdir(d))
+                op = rng.choice(["remove", "add", "rename", "none"]) if names else "add"
+                if op == "remove" and len(names) > 1:
+                    os.remove(os.path.join(d, rng.choice(names)))
+                    stamp(d)
+                elif op == "add":
+                    put("n%d.txt" % step, "n%d" % step)
+                elif op == "rename" and names:
+                    n = rng.choice(names)
+                    os.rename(os.path.join(d, n), os.path.join(d, "z" + n))
+                    stamp(d)
+                else:
+                    op = "none"
+                history.append(op)
+                want = combine(d)
+                try:
+                    got = uj.run(plan, registry=reg, output=joined, progress=None)
+                except BaseException as e:      # noqa
+                    got = "raised %s: %r" % (type(e).__name__, getattr(e, "__cause__", None))
+                if os.path.exists(out_path):
+                    stamp(out_path)          # the stored value is newer than the state it was computed from (explicit, increasing times)
+                import json as _json
+                stored = _json.load(open(out_path)) if os.path.exists(out_path) else None
+                ctx.case(("directory-source", trial, step, op, pk))
+                if got != want or stored != want:
+                    report("directory-source", "a PathSource on a directory after %r (each followed by a run): the run returned %r, the store holds %r, from scratch: %r"
+                           % (history, got, stored, want), {"history": history, "path_kind": pk})
+                    break
+        finally:
+            shutil.rmtree(root, ignore_errors=True)
+
+
+def rebuild_then_repeat(ctx, report):
+    """Every bundled file store, real modified times: value exists -> its source is touched -> the run rebuilds it (the call runs, the store
+    is written) -> the immediately repeated run does nothing.  A rewrite must leave the store newer than what it was built from."""
+    import os
+    import shutil
+    import tempfile
+    import time
+    uj = core.use_repo()
+    import uberjob.stores as st
+    kinds = {"text": (st.TextFileStore, "v"), "json": (st.JsonFileStore, {"v": 1}), "pickle": (st.PickleFileStore, ("v", 1)), "binary": (st.BinaryFileStore, b"v"),
+             "touch": (st.TouchFileStore, None)}
+    for kind, (cls, value) in kinds.items():
+        for pk in ("str", "pathlib"):
+            root = tempfile.mkdtemp(prefix="ujrebuild_")
+            try:
+                import pathlib
+                conv = (lambda p: pathlib.Path(p)) if pk == "pathlib" else (lambda p: p)
+                src_p = os.path.join(root, "source.txt")
+                with open(src_p, "w") as f:
+                    f.write("1")
+                old = time.time() - 100
+                os.utime(src_p, (old, old))
+                calls = []
+                plan, reg = uj.Plan(), uj.Registry()
+                s_ = reg.source(plan, st.PathSource(conv(src_p)))
+                node = plan.call(lambda p: calls.append("build") or value, s_)
+                store = cls(conv(os.path.join(root, "value.dat")))
+                reg.add(node, store)
+                log = []
+                for step in ("first run", "touch source + run", "repeated run", "repeated run again"):
+                    if step.startswith("touch"):
+                        time.sleep(0.03)
+                        os.utime(src_p, None)
+                        time.sleep(0.03)
+                    del calls[:]
+                    before = store.get_modified_time()
+                    try:
+                        uj.run(plan, registry=reg, output=node, progress=None)
+                        oc = "ok"
+                    except BaseException as e:      # noqa
+                        oc = "raised %s" % type(e).__name__
+                    log.append((step, oc, list(calls), before != store.get_modified_time()))
+                ctx.case(("rebuild-then-repeat", kind, pk))
+                want = [("first run", "ok", ["build"], True), ("touch source + run", "ok", ["build"], True), ("repeated run", "ok", [], False), ("repeated run again", "ok", [], False)]
+                if log != want:
+                    report("rebuild-then-repeat", "%s store: (step, outcome, calls executed, modified time changed) = %r; expected %r" % (kind, log, want),
+                           {"store": kind, "path_kind": pk})
+            finally:
+                shutil.rmtree(root, ignore_errors=True)
